@@ -10,7 +10,7 @@ variables, executed on the reference models (C01, C03, C05, C18). Value semantic
 Program: statements separated by `;`
   points : pN=base | pN=null | pN=add:pA,pB | pN=sub:pA,pB | pN=neg:pA | pN=mul:sK,pA | pN=mulbase:sK
            pN=set:pA | pN=dec:<hex>
-  scalars: sN=const:<hexnat> | sN=add:sA,sB | sN=sub:.. | sN=mul:.. | sN=neg:sA | sN=inv:sA | sN=div:sA,sB
+  scalars: sN=const:<hexnat> | sN=setbytes:<hex> (any length; the literal is little-endian, the harness reverses it for big-endian implementations) | sN=add:sA,sB | sN=sub:.. | sN=mul:.. | sN=neg:sA | sN=inv:sA | sN=div:sA,sB
            sN=set:sA
 Output: `P:<enc p0>,<enc p1>,… S:<s0>,<s1>,…` (unset variables print `_`), or `err:<reason>`.
 -/
@@ -19,6 +19,7 @@ open Kyber
 
 structure GroupOps (α : Type) where
   q : Nat
+  le : Bool   -- scalar byte order of SetBytes
   zero : α
   base : α
   add : α → α → α
@@ -28,7 +29,7 @@ structure GroupOps (α : Type) where
   dec : Bytes → Option α
 
 def edOps : GroupOps Edwards.Pt :=
-  { q := Ed25519.L, zero := Edwards.zero, base := Ed25519.base, add := Ed25519.add, neg := Ed25519.neg,
+  { q := Ed25519.L, le := true, zero := Edwards.zero, base := Ed25519.base, add := Ed25519.add, neg := Ed25519.neg,
     smul := Ed25519.smul, enc := Ed25519.enc, dec := Ed25519.dec }
 
 /-- Decoder for *canonical* uncompressed `X‖Y` encodings produced by the implementation (driver helper;
@@ -44,7 +45,7 @@ def decXY (c : Weierstrass.Curve) (w : Nat) (pre : Bytes) (bs : Bytes) : Option 
 
 def wOps (c : Weierstrass.Curve) (q : Nat) (base : Weierstrass.Pt) (enc : Weierstrass.Pt → Bytes)
     (dec : Bytes → Option Weierstrass.Pt) : GroupOps Weierstrass.Pt :=
-  { q := q, zero := none, base := base, add := Weierstrass.add c, neg := Weierstrass.neg c,
+  { q := q, le := false, zero := none, base := base, add := Weierstrass.add c, neg := Weierstrass.neg c,
     smul := Weierstrass.smul c, enc := enc, dec := dec }
 
 /-- BLS12-381 G1 compressed decoding of canonical encodings (`p ≡ 3 mod 4`: `y = (x³+4)^((p+1)/4)`). -/
@@ -115,6 +116,9 @@ def stepGrp {α : Type} (g : GroupOps α) (st : PState α) (stmt : String) : Exc
     let q := g.q
     let v ← match op, args with
       | "const", [h] => match hexN h with | some n => pure (n % q) | none => throw "hex"
+      | "setbytes", [h] => match hexB h with
+        | some bs => pure (Scalar.setBytesLE q bs)
+        | none => throw "hex"
       | "add", [a, b] => do pure (Scalar.add q (← S a) (← S b))
       | "sub", [a, b] => do pure (Scalar.sub q (← S a) (← S b))
       | "mul", [a, b] => do pure (Scalar.mul q (← S a) (← S b))
